@@ -1,5 +1,5 @@
 # replay of a bounded stand-in violation (C09/C10): re-run native/c09_engine.py
 import sys
-print("gaussian [measure q2 and q1, Del q0, feed q1's outcome to q2]: run([p1, p2]) gives <x> = -0.4000 on the fed-forward mode, the selected outcome is 0.7")
+print("C10 fock homodyne-angle {'optimize': True}: the same program re-run with a = -0.52, b = 0.44 gives [0.0, 1.0, 0.0, 1.0, 0.1903, 0.7992, -0.0589, 1.2859], the substituted program [0.0, 1.0, 0.0, 1.0, 0.0181, 1.3326, 0.1984, 0.7525]")
 print('REPLAY-VIOLATION')
 sys.exit(1)
